@@ -274,6 +274,11 @@ pub fn do_call(c: &mut Box<dyn Conn>, call: &Call, pidmap: &mut HashMap<i64, i64
         "set_resp_timeout" => catch(|| c.set_resp_timeout(call.val)).map(|_| Ok((vec![], call.clone()))),
         "opt" => catch(|| c.set_opt(&call.name, call.flag)).map(|_| Ok((vec![], call.clone()))),
         "restore" => {
+            for q in call.pkts.iter_mut() {
+                if let Some(sz) = c.size_of(q) {
+                    q.size = sz; // the size the library reports for this packet on this instantiation
+                }
+            }
             let pk = call.pkts.clone();
             catch(|| c.restore(&pk)).map(|r| r.map(|_| (vec![], call.clone())))
         }
